@@ -11,7 +11,8 @@ RULE = ("(a) crash points: a definer process announces every file-system step th
         "kill-before-step-i for every i and, for every write, a torn write after k bytes (quick: k in a stratified set of 12; "
         "thorough: every k), during a first definition and during the re-definition of a different same-named declaration over an "
         "existing cache, bytecode on and off; then a FRESH process defines the class (same declaration, the other one, or a third) "
-        "and must succeed and behave per its own declaration (thorough: a second crash during that recovery, then a third process). "
+        "and must succeed and behave per its own declaration (thorough: a second crash during that recovery, then a third process); when the "
+        "crash leaves a file named after the dead process's id, the recovery is ALSO run with that process id handed to the fresh process. "
         "(b) schedules: two definers (identical / different same-named declarations / one matching the existing cache) advance in "
         "lock-step under a Hypothesis-generated schedule over their announced steps (thorough: also every interleaving of the two "
         "step sequences merged at the granularity exists/load/remove-bytecode/create/write/publish/reload), optionally a third "
@@ -20,7 +21,7 @@ RULE = ("(a) crash points: a definer process announces every file-system step th
         "with a context switch while a cache file is open or between its publication and the reload; distinct = (scenario, crash "
         "point or schedule)")
 ASSUMPTIONS = ["fault model: process death at any point with a consistent file system and program-order writes (no power-loss reordering)",
-               "interposition at Python level (builtins.open/io.open, os.*, SourceFileLoader.get_data/set_data); a cache written through "
+               "interposition at Python level (builtins.open/io.open, os.open+os.fdopen, os.*, SourceFileLoader.get_data/set_data); a cache written through "
                "another route would show up as 'no step announced', which is reported as a harness error"]
 
 PAIRS = [("hb", "bh"), ("hb", "hb_little"), ("hb_noann", "bh_noann"), ("hb", "odd"), ("auto", "plain"), ("hb_packonly", "bh_unpackonly"), ("collide_a", "collide_b")]
@@ -42,8 +43,8 @@ def fresh_dir(V):
     return d
 
 
-def define_plain(famdir, plan, vmap, bytecode, equal=True):
-    d = procs.Definer(famdir, plan, vmap, lockstep=False, bytecode=bytecode, equal_clock=equal)
+def define_plain(famdir, plan, vmap, bytecode, equal=True, claim_pid=None):
+    d = procs.Definer(famdir, plan, vmap, lockstep=False, bytecode=bytecode, equal_clock=equal, claim_pid=claim_pid)
     d.run_to_end()
     d.reap()
     return d
@@ -56,9 +57,14 @@ def clone_dir(src):
     return dst
 
 
-def check_later(ctx, famdir, vmap, who, bytecode, describe):
+def leftovers_named_after(famdir, pid):
+    cache = os.path.join(famdir, "__pkts__")
+    return [fn for fn in (os.listdir(cache) if os.path.isdir(cache) else []) if str(pid) in fn]
+
+
+def check_later(ctx, famdir, vmap, who, bytecode, describe, claim_pid=None):
     """a fresh process defines `who` in the (possibly damaged) directory"""
-    d = define_plain(famdir, [who], vmap, bytecode)
+    d = define_plain(famdir, [who], vmap, bytecode, claim_pid=claim_pid)
     ctx.ev()
     if len(d.results) != 1:
         ctx.violation(dict(describe, sig="later-definer-died", desc="the process started after the crash died while defining %s" % who))
@@ -111,6 +117,14 @@ def run_crash(ctx, shard, V, vmap):
                     d.reap()
                     describe = {"scenario": shard["scenario"], "pair": [a, b], "victim": victim, "bytecode": bytecode, "crash_before_step": i,
                                 "step": trace[i] if i < len(trace) else None, "tear_after_bytes": tear, "trace": trace, "later": later}
+                    if leftovers_named_after(work, d.pid):
+                        # the crash left a file named after the dead process: also the case where the NEXT definer gets the same pid
+                        work2 = clone_dir(work)
+                        try:
+                            check_later(ctx, work2, vmap, later, bytecode, dict(describe, pid_reused=True), claim_pid=d.pid)
+                            ctx.count("pid_reuse_after_crash")
+                        finally:
+                            shutil.rmtree(work2, ignore_errors=True)
                     check_later(ctx, work, vmap, later, bytecode, describe)
                     if ctx.tier == "thorough" and tear is None and i % 3 == 0:
                         # crash during the recovery too, then a third process
